@@ -261,6 +261,19 @@ def devNonBmpBefore (text : Bytes) (off : Nat) : Bool :=
 /-- Tag tokens are placed by BYTE offsets inside the comment: wrong after a non-ASCII byte. -/
 def devTagBytes (t : Token) (endByte : Nat) : Bool := (t.val.take endByte).any (· ≥ 0x80)
 
+/-- A comma-separated part of the comment that contains `:` but whose name is not a tag name
+    (empty, or with blanks or other characters) is skipped WITHOUT advancing the search
+    position; `strings.Index` may then find a later tag's `name:` inside that part. -/
+def devTagSkippedPart (cls : Classes) (t : Token) : Bool :=
+  t.ty == .comment &&
+  (splitOn comma t.val).any fun part =>
+    let trimmed := trimSpace part
+    match indexOf [colon] trimmed with
+    | none => false
+    | some i =>
+      let name := trimSpace (trimmed.take i)
+      name.isEmpty || !isValidTagName cls name
+
 /-! ### Hypotheses on the lexer's output
 
   The tokenizer model takes the lexer's tokens as input; the theorems about positions assume
